@@ -45,7 +45,14 @@ def replay(pid, path):
     doc = json.load(open(path))
     mod = load(doc['property'])
     h = next(x for x in mod.HARNESSES if x.name == doc['harness'])
-    outcome, info = run_concrete(h.body(doc.get('tier', 'quick')), unjson(doc['inputs']))
+    if getattr(h, 'kind', '') == 'smt':
+        try:
+            h.replay(unjson(doc['inputs']), h.bounds[doc.get('tier', 'quick')])
+            outcome, info = 'pass', {}
+        except AssertionError as e:
+            outcome, info = 'fail', {'type': 'AssertionError', 'msg': str(e)[:300]}
+    else:
+        outcome, info = run_concrete(h.body(doc.get('tier', 'quick')), unjson(doc['inputs']))
     print(f'replay {doc["property"]}/{doc["harness"]}: {outcome} {json.dumps(info)}')
     if outcome == 'fail':
         print(f'VIOLATION property={doc["property"]} replay={path}')
